@@ -9,7 +9,10 @@ from concurrent.futures import ThreadPoolExecutor
 
 VERIF = os.path.dirname(os.path.dirname(os.path.abspath(__file__)))
 REPO = os.environ.get('VERIF_REPO', '/repo')
-BUILD = os.path.join(VERIF, 'build')
+# VERIF_SCRATCH redirects every output (build, evidence, replays) - used when checking a mutated scratch copy of the repo
+# (VERIF_REPO) so that evidence/ of the real tree is not touched.
+OUT = os.environ.get('VERIF_SCRATCH', VERIF)
+BUILD = os.path.join(OUT, 'build')
 NCPU = int(os.environ.get('VERIF_JOBS', str(os.cpu_count() or 4)))
 
 CLEAN_ENV = {'PATH': '/usr/local/bin:/usr/bin:/bin', 'LC_ALL': 'C', 'TZ': 'UTC', 'HOME': '/root'}
@@ -72,7 +75,7 @@ class Check:
         self.assumptions = []
         self.capped = False
         self.workdir = os.path.join(BUILD, 'run-' + pid)
-        self.replay_dir = os.path.join(VERIF, 'replays', pid)
+        self.replay_dir = os.path.join(OUT, 'replays', pid)
         self._nrep = 0
         shutil.rmtree(self.workdir, ignore_errors=True)
         os.makedirs(self.workdir, exist_ok=True)
@@ -123,8 +126,8 @@ class Check:
             'coverage': c, 'assumptions': self.assumptions,
             'wall_s': round(time.time() - self.t0, 2), 'violations': len(self.violations),
         }
-        os.makedirs(os.path.join(VERIF, 'evidence'), exist_ok=True)
-        with open(os.path.join(VERIF, 'evidence', self.id + '.json'), 'w') as f:
+        os.makedirs(os.path.join(OUT, 'evidence'), exist_ok=True)
+        with open(os.path.join(OUT, 'evidence', self.id + '.json'), 'w') as f:
             json.dump(ev, f, indent=1, default=repr)
         for i, n in sorted(self.known_hits.items()):
             print('KNOWN-FINDING: property=%s %s (%d matching cases this run)' %
